@@ -95,6 +95,16 @@ public:
 };
 
 std::string hx(double d) { return d != d ? std::string("nan") : doubleToHex(d); }
+std::string hrows(const std::vector<std::vector<double>>& vv) {
+  std::string s;
+  for (size_t i = 0; i < vv.size(); ++i) { if (i) s += " ; "; bool f = true; for (double d : vv[i]) { if (!f) s += " "; f = false; s += hx(d); } }
+  return vv.empty() ? "-" : s;
+}
+template<class L> bool assignAs(HmmLikelihood& dst, const HmmLikelihood& src) {
+  L* d = dynamic_cast<L*>(&dst); const L* s = dynamic_cast<const L*>(&src);
+  if (!d || !s) return false;
+  *d = *s; return true;
+}
 std::string hxs(const std::vector<double>& v) { std::string s; for (double d : v) { if (!s.empty()) s += " "; s += hx(d); } return s.empty() ? "-" : s; }
 
 struct State {
@@ -103,6 +113,7 @@ struct State {
   std::vector<double> P, F, E;
   std::map<std::string, std::shared_ptr<HmmLikelihood>> obj;
   std::map<std::string, std::shared_ptr<Parametrizable>> par;   // the same objects, as Parametrizable
+  std::map<std::string, std::vector<std::vector<double>>> buf;  // targets of getHiddenStatesPosteriorProbabilities(probs, append)
 };
 
 template<class L> void reg(State& s, const std::string& k, std::shared_ptr<L> p) { s.obj[k] = p; s.par[k] = p; }
@@ -162,6 +173,14 @@ std::string run(State& s, const Toks& t) {
     s.obj[t[2]] = c; s.par[t[2]] = cp;
     return hx(c->getLogLikelihood());
   }
+  if (o == "assign") {
+    // assign <src> <dst>: *dst = *src through operator= of the likelihood class
+    auto a = s.obj.find(t[1]), b = s.obj.find(t[2]);
+    if (a == s.obj.end() || b == s.obj.end()) return "no-object";
+    if (!(assignAs<RescaledHmmLikelihood>(*b->second, *a->second) || assignAs<LowMemoryRescaledHmmLikelihood>(*b->second, *a->second)
+          || assignAs<LogsumHmmLikelihood>(*b->second, *a->second))) return "class-mismatch";
+    return hx(b->second->getLogLikelihood());
+  }
   if (o == "agree") {
     std::string r;
     for (size_t i = 1; i < t.size(); ++i) { auto q = s.obj.find(t[i]); r += (i > 1 ? " " : "") + (q == s.obj.end() ? std::string("none") : hx(q->second->getLogLikelihood())); }
@@ -181,6 +200,8 @@ std::string run(State& s, const Toks& t) {
     L.setParameters(pl); return hx(L.getLogLikelihood());
   }
   if (o == "post") { std::vector<std::vector<double>> vv; L.getHiddenStatesPosteriorProbabilities(vv, false); std::vector<double> f; for (auto& r : vv) for (double d : r) f.push_back(d); return hxs(f); }
+  if (o == "postb") { auto& vv = s.buf[t[2]]; L.getHiddenStatesPosteriorProbabilities(vv, t[3] == "1"); return hrows(vv); }
+  if ((o == "post1" || o == "sl") && toU(t[2]) >= L.hmmEmissionProbabilities().getNumberOfPositions()) return "bad-site";
   if (o == "post1") return hxs(L.getHiddenStatesPosteriorProbabilitiesForASite(toU(t[2])));
   if (o == "sl") return hx(L.getLikelihoodForASite(toU(t[2])));
   if (o == "sls") return hxs(L.getLikelihoodForEachSite());
